@@ -213,15 +213,19 @@ func RunSeq(cfg SeqConfig) (*SeqResult, error) {
 		acKeys = append(acKeys, MkBlob([]byte(fmt.Sprintf("ac-%d-%d", cfg.Seed, i))).Hash)
 	}
 	acVal := map[string][]byte{} // kind/hash -> last stored value
+	var tooBig Blob
 	if proxy != nil {
 		// some blobs exist only in the backend, in the format a peer would upload
 		for i := 0; i < 3; i++ {
+			// (also blobs that do not fit into this cache: fetched without a stated size they are written to disk
+			// and refused by the index at commit - the request fails and the file goes again)
 			b := pool[rng.Intn(len(pool))]
-			if int64(len(b.Data)) > cfg.MaxSize {
-				continue
-			}
 			SeedBackend(proxy, cfg.Mode, b)
 		}
+		// one of them for certain: incompressible and a block larger than the cache
+		tooBig = MkBlob(GenData(rng, int(cfg.MaxSize)+4097, 0))
+		SeedBackend(proxy, cfg.Mode, tooBig)
+		pool = append(pool, tooBig, tooBig)
 	}
 
 	record := func(op, key string, size int64, r string) {
@@ -314,7 +318,7 @@ func RunSeq(cfg SeqConfig) (*SeqResult, error) {
 		case k < 15: // read
 			b := pool[rng.Intn(len(pool))]
 			size := int64(len(b.Data))
-			if rng.Intn(4) == 0 {
+			if rng.Intn(4) == 0 || (b.Hash == tooBig.Hash && rng.Intn(4) != 0) {
 				size = -1
 			}
 			var off int64
